@@ -5,7 +5,6 @@ import (
 	"fmt"
 	"os"
 	"path/filepath"
-	"regexp"
 	"sort"
 	"strings"
 	"time"
@@ -14,8 +13,6 @@ import (
 )
 
 func init() { common.Register("C15", run) }
-
-var elemLValRE = regexp.MustCompile(`\(lv [0-9a-f-]+ [01] \(\(`)
 
 var (
 	featHist         = map[string]int{}
@@ -39,9 +36,9 @@ func run(c *common.Ctx) error {
 			if path := os.Getenv("C15_DUMP_FIXED"); path != "" {
 				// maintenance: regenerate harness/corpus/C15.txt from fixed.go
 				var b strings.Builder
-				b.WriteString("# generated from harness/c15/fixed.go (C15_DUMP_FIXED): examples of language.md in the core, interaction cases, finding witnesses\n")
+				b.WriteString("# generated from harness/c15/fixed.go (C15_DUMP_FIXED): examples of language.md in the core, interaction cases, witnesses of the fixed element-lvalue defect\n")
 				for _, p := range fixedPrograms() {
-					b.WriteString("# " + p.Src(" ; ") + "\n" + opLine("impl", p) + "\n")
+					b.WriteString("# " + p.Src(" ; ") + "\n" + opLine("ref", p) + "\n")
 				}
 				os.WriteFile(path, []byte(b.String()), 0o644)
 			}
@@ -51,7 +48,7 @@ func run(c *common.Ctx) error {
 				for f := range feats {
 					featHist[f]++
 				}
-				ops = append(ops, opLine("impl", p))
+				ops = append(ops, opLine("ref", p))
 			}
 			// The reference's verdict on every program, in one batch.  Programs on
 			// which the reference is undefined (they leave the exact-number /
@@ -61,32 +58,10 @@ func run(c *common.Ctx) error {
 			if err := precomputeRef(ops); err != nil {
 				fmt.Fprintln(os.Stderr, "C15: reference not available:", err)
 			}
-			// mode impl differs from mode ref only on programs with element lvalues
-			var elemOps []string
-			var elemIdx []int
-			for i, op := range ops {
-				if elemLValRE.MatchString(op) {
-					elemOps = append(elemOps, op)
-					elemIdx = append(elemIdx, i)
-				}
-			}
-			implMode := make([]string, len(ops))
-			for i, op := range ops {
-				implMode[i] = refCache[op]
-			}
-			if res, err := runDriverBatched(elemOps); err == nil {
-				for k, r := range res {
-					implMode[elemIdx[k]] = r
-				}
-			}
 			c.Extra["reference_time_s"] = time.Since(t0).Seconds()
 			kept := 0
-			for i, op := range ops {
+			for _, op := range ops {
 				if r, ok := refCache[op]; ok && !defined(r) {
-					droppedUndefined++
-					continue
-				}
-				if implMode[i] != "" && !defined(implMode[i]) {
 					droppedUndefined++
 					continue
 				}
@@ -168,13 +143,9 @@ func oracle(_ any, f []string, out string) (string, string) {
 	if ref == out {
 		return "", ""
 	}
-	// a disagreement: is it explained by a recorded deviation of pkg/eval?
 	class := "differs-from-reference"
-	if res, err := runDriver([]string{withMode(op, "impl")}); err == nil && res[0] == out {
-		class = "differs-from-reference/stale-element-container"
-	}
 	detail := fmt.Sprintf("program: %s ; elvish: %s ; reference: %s", strings.ReplaceAll(src, "\n", " ; "), out, ref)
-	if class == "differs-from-reference" && shrunk < shrinkMax() { // recorded deviations are not shrunk again
+	if shrunk < shrinkMax() {
 		shrunk++
 		if m := shrink(f[2], class); m != "" {
 			detail = m + " || original " + detail
